@@ -1,12 +1,24 @@
-Check (C17_set_video_track_is_video : forall b c w h, bstep b (BSetVideoTrack c w h) = bstep b (BVideo c w h)).
-Check (C17_set_audio_track_is_audio : forall b c r ch, bstep b (BSetAudioTrack c r ch) = bstep b (BAudio c r ch)).
-Check (C17_setters_equal_with_metadata : forall b t l, b_meta b = None -> bstep (bstep b (BSetCreateTime t)) (BSetLanguage l) = bstep b (BWithMetadata {| md_title := None; md_creation_time := Some t; md_language := Some l |})).
-Check (C17_audio_none_is_no_audio : forall b r ch script, build (upd_audio b (Some (NoAudio, r, ch))) script = build (upd_audio b None) script).
-Check (C17_encode_video_is_write_video_at_accumulated_time : forall m d ms,
+Open Scope N_scope.
+Check (C17_set_video_track_is_video : (forall b c w h, bstep b (BSetVideoTrack c w h) = bstep b (BVideo c w h))%type).
+Check (C17_set_audio_track_is_audio : (forall b c r ch, bstep b (BSetAudioTrack c r ch) = bstep b (BAudio c r ch))%type).
+Check (C17_setters_equal_with_metadata : (forall b t l, b_meta b = None ->
+  bstep (bstep b (BSetCreateTime t)) (BSetLanguage l) =
+  bstep b (BWithMetadata {| md_title := None; md_creation_time := Some t; md_language := Some l |}))%type).
+Check (C17_audio_none_is_no_audio : (forall b r ch script,
+  build (upd_audio b (Some (NoAudio, r, ch))) script = build (upd_audio b None) script)%type).
+Check (C17_encode_video_is_write_video_at_accumulated_time : (forall m d ms,
   snd (encode_video m d ms) = snd (write_video m (m_cur_vpts m) d (api_is_keyframe m d)) /\
-  m_writer (fst (encode_video m d ms)) = m_writer (fst (write_video m (m_cur_vpts m) d (api_is_keyframe m d)))).
-Check (C17_encode_audio_is_write_audio_at_accumulated_time : forall m d n a, m_audio m = Some a ->
+  m_writer (fst (encode_video m d ms)) = m_writer (fst (write_video m (m_cur_vpts m) d (api_is_keyframe m d))))%type).
+Check (C17_encode_audio_is_write_audio_at_accumulated_time : (forall m d n a,
+  m_audio m = Some a ->
   snd (encode_audio m d n) = snd (write_audio m (m_cur_apts m) d) /\
-  m_writer (fst (encode_audio m d n)) = m_writer (fst (write_audio m (m_cur_apts m) d))).
-Check (C17_writer_sees_only_ticks : forall m p p' d k w w', F64.tick p = F64.tick p' ->
-  write_video_sample (m_writer m) (F64.tick p) d k = inl w -> write_video_sample (m_writer m) (F64.tick p') d k = inl w' -> w = w').
+  m_writer (fst (encode_audio m d n)) = m_writer (fst (write_audio m (m_cur_apts m) d)))%type).
+Check (C17_writer_sees_only_ticks : (forall m p p' d k w w',
+  F64.tick p = F64.tick p' ->
+  write_video_sample (m_writer m) (F64.tick p) d k = inl w ->
+  write_video_sample (m_writer m) (F64.tick p') d k = inl w' -> w = w')%type).
+Check (C17_equal_ticks_equal_writer : (forall m p p' d k,
+  F64.tick p = F64.tick p' ->
+  (forall e, snd (write_video m p d k) = Some e <-> snd (write_video m p' d k) = Some e) ->
+  snd (write_video m p d k) = None ->
+  m_writer (fst (write_video m p d k)) = m_writer (fst (write_video m p' d k)))%type).
